@@ -18,7 +18,8 @@ RULE = ("enumeration: (a) every assignment of {absent, true, false, raise} "
         "after_start (4^4 x 2^4, a superset of the stated 3^4 x 2^4) x "
         "worker in {obedient, stubborn} x numprocesses in {1, 2} x request "
         "in {start, restart, daemon start}, plus each start-phase hook answering "
-        "None / 0 instead of False; (b) before_stop/after_stop x "
+        "None / 0 instead of False, and before_spawn / after_spawn accepting the "
+        "first worker and refusing the second; (b) before_stop/after_stop x "
         "outcomes x ignore x {stop, restart, rm} x worker kind; (c) "
         "before_signal/after_signal x outcomes (None and 0 included in b, c) x ignore x signal in {TERM, "
         "HUP, USR1, KILL} x {signal, kill, stop} x worker kind.  sampled: "
@@ -43,13 +44,15 @@ SIGS = {"TERM": 15, "HUP": 1, "USR1": 10, "KILL": 9}
 GT = 0.3
 
 
-def eff(hooks, name, default_ignored=False):
+def eff(hooks, name, default_ignored=False, nth=1):
     spec = hooks.get(name)
     if spec is None:
         return True
     out, ign = spec
     if out == 'true':
         return True
+    if out == 'second-false':
+        return nth <= 1
     if out in FALSY:
         return False
     return bool(ign) or default_ignored
@@ -63,10 +66,10 @@ def start_model(np_, hooks):
         return True, calls, 'before_start'
     for _ in range(np_):
         calls['before_spawn'] += 1
-        if not eff(hooks, 'before_spawn'):
+        if not eff(hooks, 'before_spawn', nth=calls['before_spawn']):
             return True, calls, 'before_spawn'
         calls['after_spawn'] += 1
-        if not eff(hooks, 'after_spawn'):
+        if not eff(hooks, 'after_spawn', nth=calls['after_spawn']):
             return True, calls, 'after_spawn'
     calls['after_start'] = 1
     if not eff(hooks, 'after_start'):
@@ -266,7 +269,8 @@ def execute(case):
                             s, sorted(old_pids), got_s)))
     finally:
         h.close()
-    nontrivial = any(v[0] in FALSY + ('raise',) for v in hooks.values())
+    nontrivial = any(v[0] in FALSY + ('raise', 'second-false')
+                     for v in hooks.values())
     seen = set()
     out = []
     for v in viols:
@@ -317,6 +321,22 @@ def start_cases_falsy():
                                    "request": reqname}
 
 
+def start_cases_late_veto():
+    """before_spawn / after_spawn accept the first worker and refuse the
+    second: the start is aborted with one worker already running."""
+    for hn in ('before_spawn', 'after_spawn'):
+        for others in ('absent', 'true'):
+            hooks = dict((h2, [others, False]) for h2 in START_HOOKS
+                         if others != 'absent')
+            hooks[hn] = ['second-false', False]
+            for worker in ('obedient', 'stubborn'):
+                for np_ in (2, 3):
+                    for reqname in ('start', 'daemon-start'):
+                        yield {"family": "start", "hooks": hooks,
+                               "worker": worker, "np": np_,
+                               "request": reqname}
+
+
 def stop_cases():
     for o1, o2 in itertools.product(OUTCOMES_WIDE, repeat=2):
         for f1, f2 in itertools.product((False, True), repeat=2):
@@ -351,6 +371,7 @@ def signal_cases():
 
 def _all_cases(tier):
     return list(start_cases()) + list(start_cases_falsy()) + \
+        list(start_cases_late_veto()) + \
         list(stop_cases()) + list(signal_cases())
 
 
